@@ -164,13 +164,18 @@ mod verif_c16_state {
     });
 
     // @harness id=C16 tier=quick timeout=1800 mem=12 checks=rust
-    // @bounds inductive step, set_style(style with TAB literals carrying ANY width ws in 0..=9 of its own, e.g. a clone taken from another bar) from any consistent state: the installed style and its literals carry the bar's width
+    // @bounds inductive step, set_style(style whose field carries ANY width ws and whose TAB literals carry ANY width wl in 0..=9, e.g. a clone taken from another bar or a style re-templated with template()) from any consistent state: the installed style and its literals carry the bar's width
     c16_step!(c16_step_set_style, bs, now, w0, {
         let spec2 = [RigPart::Lit("\ty")];
         let mut st2 = rig_style_spec(&spec2);
         let ws: usize = kani::any();
         kani::assume(ws <= 9);
         style_force_tab_width(&mut st2, ws);
+        // ... and its literals any other one (ProgressStyle::template() re-parses literals at the default width and leaves the field alone)
+        let wl: usize = kani::any();
+        kani::assume(wl <= 9);
+        style_force_literal_width(&mut st2, wl);
+        kani::cover!(ws == w0 && wl != w0);
         bs.set_style(st2);
     });
 
